@@ -56,6 +56,7 @@ fn decode(u: &mut Unstructured) -> Option<Vec<u8>> {
 }
 
 fuzz_target!(|data: &[u8]| {
+    checks::fz::init();
     let mut u = Unstructured::new(data);
     let text = match decode(&mut u) {
         Some(t) => t,
